@@ -14,7 +14,8 @@ EXPLANATION = (
     "get_input hands out views; (loop-clone) every iteration of Loop gets its own clone (or child) of the environment, so "
     "a by-value capture consumed in one iteration is still there in the next; (release) by-value captures that were not "
     "consumed are extracted only after the operator loop and returned to the pool; the weight-cache index of each branch "
-    "agrees with SubgraphOperator::subgraphs(). Running a subgraph can therefore not change a parent value that is still "
+    "agrees with SubgraphOperator::subgraphs(); (loop-outputs) each step's scan outputs are accumulated on every path through "
+    "Loop's extraction loop, so the positional output list cannot shift. Running a subgraph can therefore not change a parent value that is still "
     "needed. Equality with the inlined graph is not decided.")
 ASSUMPTIONS = ["Value::clone / CaptureEnv::clone deep-copy owned tensors (derived Clone over Vec storage)"]
 RP = C02.RP
